@@ -81,15 +81,15 @@ def cms(repo, chk):
         bound_add[dpar] = ('role', 'delta')
     E = lambda s: expected_term(m, s, {k: ('role', k) for k in ('M', 'x', 'depth', 'width', 'seeds', 'delta', 'i')})
     it = term_of(add_s, lp.iter, bound_add)
-    chk.expect(it in (E('range(depth)'), E('numba.prange(depth)')), 'C15.2a', 'R13', add_s.site(lp), ast.unparse(lp.iter), 'update visits every row of the sketch',
-               f'the update loop must range over all of range(depth); found {show(it)[:80]}')
+    chk.expect_term(it, [E('range(depth)'), E('numba.prange(depth)'), E('range(0, depth)')], 'C15.2a', 'R13', add_s.site(lp), ast.unparse(lp.iter), 'update visits every row of the sketch',
+                    f'the update loop must range over all of range(depth); found {show(it)[:80]}')
     if isinstance(lp.target, ast.Name):
         bound_add[lp.target.id] = ('role', 'i')
     tgt = st.target if isinstance(st, ast.AugAssign) else st.targets[0]
     cell = term_of(add_s, tgt, bound_add)
     hname = 'outrank.algorithms.sketches.counting_cms.cms_hash'
     cell_forms = [E(f'M[i, {hname}(x, seeds[i], width)]'), E(f'M[i][{hname}(x, seeds[i], width)]')]
-    chk.expect(cell in cell_forms, 'C15.2b', 'R6', add_s.site(st), ast.unparse(tgt), 'cell = M[row, cms_hash(x, seed[row], width)]', f'update addresses {show(cell)[:140]}, not M[i, cms_hash(x, seeds[i], width)]')
+    chk.expect_term(cell, cell_forms, 'C15.2b', 'R6', add_s.site(st), ast.unparse(tgt), 'cell = M[row, cms_hash(x, seed[row], width)]', f'update addresses {show(cell)[:140]}, not M[i, cms_hash(x, seeds[i], width)]')
     in_loop = any(x is st for x in ast.walk(lp))
     conditional = any(isinstance(x, (ast.If, ast.Try, ast.While)) for x in ast.walk(lp) if x is not lp)
     inc_ok = isinstance(st, ast.AugAssign) and isinstance(st.op, ast.Add) and term_of(add_s, st.value, bound_add) == ('role', 'delta')
@@ -97,6 +97,23 @@ def cms(repo, chk):
                'each row must get exactly `+= delta` at one cell, unconditionally (conservation: row sum = total weight; never below the true weight)')
 
     # an item added without an explicit weight counts once
+    # a weighted batch: every item of batch_add(items, delta) is added with that weight
+    badd = repo.func(CMS, 'CountMinSketch.batch_add')
+    bpar = [q for q in badd.params if q != 'self']
+    bweight = bpar[1] if len(bpar) > 1 else None
+    if bweight is not None and dadd is not None:
+        aliases = {n.targets[0].id for n in own_nodes(badd.node) if isinstance(n, ast.Assign) and len(n.targets) == 1 and isinstance(n.targets[0], ast.Name) and isinstance(n.value, ast.Attribute)
+                   and isinstance(n.value.value, ast.Name) and n.value.value.id == 'self' and n.value.attr == 'add'}
+        adds_in_batch = [c for c in calls(badd) if (isinstance(c.func, ast.Attribute) and isinstance(c.func.value, ast.Name) and c.func.value.id == 'self' and c.func.attr == 'add') or (isinstance(c.func, ast.Name) and c.func.id in aliases)]
+        for c in adds_in_batch:
+            got = next((k.value for k in c.keywords if k.arg == dadd), c.args[1] if len(c.args) > 1 else None)
+            if got is None:
+                chk.bad('C15.1c', 'R6', badd.site(c), ast.unparse(c)[:100], f'batch_add receives a weight `{bweight}` but adds every item with the default weight: a weighted batch is counted with weight 1 per item, so estimates and row sums '
+                        'fall below the true weight (or exceed it for weights below 1)')
+            elif not (isinstance(got, ast.Name) and got.id == bweight):
+                chk.unsure('C15.1c', 'R6', badd.site(c), ast.unparse(c)[:100], f'the weight handed to add() in batch_add is not the parameter `{bweight}` itself')
+            else:
+                chk.ok('C15.1c', 'R6', badd.site(c), ast.unparse(c)[:100], 'every item of a batch is added with the weight of the batch')
     for f in (add_s, add, repo.func(CMS, 'CountMinSketch.batch_add')):
         dv = f.node.args.defaults
         pn = f.params
@@ -137,8 +154,14 @@ def cms(repo, chk):
         if "'name', 'max'" in repr(rt) or 'numpy.max' in txt or 'mean' in txt or 'median' in txt or 'sum(' in txt:
             why = 'the estimate is not the row-wise minimum: it can exceed the true weight bound or fall below it - ' + why
         from ..terms import walk_term
-        uses_hash = any(isinstance(x, tuple) and len(x) >= 2 and x[0] == 'call' and isinstance(x[1], tuple) and str(x[1][-1]).split('.')[-1] == hname for x in walk_term(rt))
-        if not uses_hash:
+        uses_hash = any(isinstance(x, tuple) and len(x) >= 2 and x[0] == 'call' and isinstance(x[1], tuple) and str(x[1][-1]).split('.')[-1] == str(hname).split('.')[-1] for x in walk_term(rt))
+        # ... or through whatever package function the update itself addresses its cells with (a shared locations helper)
+        upd_funcs = {m.dotted(c.func) for c in calls(add_s) if (m.dotted(c.func) or '').startswith('outrank.')}
+        qry_funcs = {str(x[1][1]) for x in walk_term(rt) if isinstance(x, tuple) and len(x) >= 2 and x[0] == 'call' and isinstance(x[1], tuple) and x[1][0] == 'lib' and str(x[1][1]).startswith('outrank.')}
+        if not uses_hash and (upd_funcs & qry_funcs):
+            chk.unsure('C15.3', 'R15', query.site(rets[0]), ast.unparse(rets[0]), f'update and query both address their cells through {sorted(upd_funcs & qry_funcs)[0].split(".")[-1]}, which this rule does not analyse: '
+                       'whether the query reads, in every row, exactly the cell the update writes is not decided')
+        elif not uses_hash:
             # the update addresses its cells with the module's hash function; a query that computes the columns in another way (a vectorised
             # re-implementation, other arithmetic) reads cells the update may not have written
             chk.bad('C15.3', 'R15', query.site(rets[0]), ast.unparse(rets[0]), f'the query does not address its cells through {hname}, the function the update uses: a re-implementation of the hash (different integer width, '
